@@ -159,14 +159,15 @@ def driver_series(name, n, extra):
     return out
 
 
-def run_stock(kind, grid, lt, quad, extra, shapes, driver, via="ctor", int_dtype=False, pass_arrays=False, recompute=False):
+def run_stock(kind, grid, lt, quad, extra, shapes, driver, via="ctor", int_dtype=False, pass_arrays=False, recompute=False, lm=None):
     """Build and compute one dynamic stock model.  `driver`: dict (t,label)->value (inflow for
     'inflow', prescribed stock for 'stock-*').  Returns dict of observed tables + the object."""
     import flodym
 
     dist, base = lt
     dims = make_dims(grid, extra)
-    lm = make_lifetime(dist, dims, base, shapes, extra, quad[0], quad[1], via)
+    if lm is None:  # otherwise: a lifetime model object that is shared with other stocks (same dims, same parameters)
+        lm = make_lifetime(dist, dims, base, shapes, extra, quad[0], quad[1], via)
     n = len(grid)
     shape = (n,) + tuple(k for _, k in extra)
     dv = np.zeros(shape, dtype=np.int64 if int_dtype else float)
@@ -200,6 +201,7 @@ def run_stock(kind, grid, lt, quad, extra, shapes, driver, via="ctor", int_dtype
     s.compute()
     out = dict(
         obj=s,
+        lm=lm,
         stock=series_from_nd(s.stock.values, extra),
         inflow=series_from_nd(s.inflow.values, extra),
         outflow=series_from_nd(s.outflow.values, extra),
